@@ -11,7 +11,7 @@ import z3
 from .contract import Contract
 from .pyexpr import ExprMixin, PyDictLit
 from .pymatch import MODE_KINDS, MatchMixin, PyPattern
-from .pyvals import (NONE, Exc, IntSeq, NoneVal, PAbs, PyCache, PyCallable, PyConst, PyGen, PyKey, PyList, PyMap, PyObj, PyOpt, PyRuleSeq, PyStrDict,
+from .pyvals import (LE_BYTES, LE_VAL, NONE, Exc, IntSeq, NoneVal, PAbs, PyCache, PyCallable, PyConst, PyGen, PyKey, PyList, PyLit, PyMap, PyObj, PyOpt, PyRuleSeq, PyStrDict,
                      PyStrSet, PyTuple, StrSeq, Tok, TokSeq, Val, ValSeq, VAL_AXIOMS, clone, fresh, is_bool, is_int, is_seq,
                      is_str, is_tok, is_val, is_z3, tok_fields, truthy)
 from .pyvc import (VC, St, Tr, Unsupported, dedent, eq, is_keyword, is_soft_keyword, join_lines, lift, str_isspace, str_lower,
@@ -168,6 +168,8 @@ class Executor(MatchMixin, ExprMixin):
             return [fresh(prefix, ValSeq)]
         if ty == "pos":
             return [PyTuple([fresh(prefix + "_l", I), fresh(prefix + "_c", I)])]
+        if ty == "lit":
+            return [PyLit(fresh(prefix + "_isbytes", z3.BoolSort()), fresh(prefix + "_val", Val))]
         if ty == "mode":
             k = fresh(prefix + "_kind", I)
             st.assume(z3.And(k >= 0, k <= 3))
@@ -317,6 +319,8 @@ class Executor(MatchMixin, ExprMixin):
             return PyTuple([self.fresh_like(x, prefix) for x in v.items])
         if isinstance(v, PyOpt):
             return PyOpt(fresh(prefix + "_none", z3.BoolSort()), self.fresh_like(v.some, prefix))
+        if isinstance(v, PyLit):
+            return PyLit(fresh(prefix + "_isbytes", z3.BoolSort()), fresh(prefix + "_val", Val))
         if isinstance(v, PyMap):
             m = PyMap.fresh(prefix)
             m.nonempty = fresh(prefix + "_ne", z3.BoolSort())
@@ -893,6 +897,7 @@ class Executor(MatchMixin, ExprMixin):
                 out.append((p2, Flow("normal")))
                 continue
             self.assign_target(s.target, elem(i), p2, s)
+            p2.env["_i"] = i               # ghost: number of completed iterations (readable by witness hints / specs evaluated inside the body)
             for p3, fl in self.exec_block(s.body, p2):
                 if fl.kind in ("normal", "continue"):
                     self.check_invariants(p3, lc, "invariant-preserved", s.lineno, {"_i": i + 1})
@@ -1027,6 +1032,9 @@ class Executor(MatchMixin, ExprMixin):
                 return [(st, self.make_exception(st, fn.name, args))]
             if fn.name == "TokenInfo":
                 return [(st, self.make_token(st, args, kwargs))]
+            if fn.name == "ast.literal_eval" and len(args) == 1:
+                # external: a str or bytes value determined by the token text (its own errors are C11's known finding)
+                return [(st, PyLit(LE_BYTES(lift(args[0])), LE_VAL(lift(args[0]))))]
             if fn.name == "textwrap.dedent" and len(args) == 1:
                 return [(st, dedent(lift(args[0])))]        # external: uninterpreted str -> str
             if fn.name in MODE_KINDS:
@@ -1416,6 +1424,13 @@ class Executor(MatchMixin, ExprMixin):
     def b_isinstance(self, e, st):
         v = self.eval1(e.args[0], st)
         t = ast.unparse(e.args[1])
+        if v is NONE:
+            return [(st, z3.BoolVal(False))]
+        if isinstance(v, PyLit):
+            if t == "bytes":
+                return [(st, v.isbytes)]
+            if t == "str":
+                return [(st, z3.Not(v.isbytes))]
         if t == "str":
             return [(st, z3.BoolVal(is_str(v)))]
         if t == "tuple":
@@ -1429,6 +1444,8 @@ class Executor(MatchMixin, ExprMixin):
             if isinstance(cls, PyConst) and cls.name in MODE_KINDS:
                 return [(st, v.fields["kind"] == MODE_KINDS[cls.name])]
             raise Unsupported(f"isinstance(<mode>, {t})")
+        if isinstance(v, PyObj) and t in ("ast.AST", "ast.expr", "AST"):
+            return [(st, z3.BoolVal(v.cls.startswith("ast.") or v.cls == "PosNode"))]
         if isinstance(v, PyObj):
             names = [x.strip() for x in t.replace("(", "").replace(")", "").replace("|", ",").split(",")]
             return [(st, z3.BoolVal(v.cls in names or ("ast." + v.cls) in names or v.cls.split(".")[-1] in [n.split(".")[-1] for n in names]))]
@@ -1497,6 +1514,8 @@ class Executor(MatchMixin, ExprMixin):
         a = Tr(self.eval1(e.args[0], st))
         if z3.is_false(z3.simplify(a)):
             return [(st, z3.BoolVal(True))]
+        if not z3.is_true(z3.simplify(a)) and not self.feasible(st, a):
+            return [(st, z3.BoolVal(True))]        # the antecedent cannot hold on this path: the consequent need not even be well-typed here
         s2 = St()
         s2.pc = list(st.pc) + [a]
         s2.env = st.env
@@ -1733,8 +1752,16 @@ class Executor(MatchMixin, ExprMixin):
             for cls, cond in c.raises_when.items():
                 if exc_matches(ex.cls, cls) and p.old is not None:
                     so = St()
-                    so.pc, so.env, so.old = p.pc, p.old.env, None
-                    self.vc(p, Tr(self.spec_eval(cond, so)), "raises-only-when", f"{cls} is raised only when `{cond}` (pre-state)", ex.lineno)
+                    so.pc, so.env, so.old = p.pc, dict(p.old.env), None
+                    hints = c.witness.get(cond) if c.witness else None
+                    if hints:
+                        # witnesses of an existential condition may mention ghost/loop variables of the raising path
+                        so.env.update({k: v for k, v in p.env.items() if k.startswith("_") and k not in so.env})
+                    self.witness_hints = hints
+                    try:
+                        self.vc(p, Tr(self.spec_eval(cond, so)), "raises-only-when", f"{cls} is raised only when `{cond}` (pre-state)", ex.lineno)
+                    finally:
+                        self.witness_hints = None
             if allowed and getattr(c, "raises_ensures", None) and hasattr(ex, "obj"):
                 p.env["exc"] = ex.obj
                 for en in c.raises_ensures:
